@@ -73,6 +73,12 @@ CLAIMED.update({
     design_ref="§4 C08", note=STRUCT_NOTE + " Write sets are may-sets over field-name paths (indices dropped).",
     technique="static analysis: parameter-relative effect (write-set) analysis over the call graph + dominance / post-dominance rules on MIR"),
 })
+CLAIMED.update({
+ "C11": dict(category="other",
+    text="Cut-exactness clauses, decided for every comment count: (R-SAUCE-AFFINE) a path-sum analysis of write_sauce_info's MIR reconstructs the number of appended bytes as an affine function of the number of comment lines (push = 1, extend of an array / constant slice = its length, extend(s.bytes()) = the proven length of s, SauceString<N,_>::append_to = N, the comment loop = n x a path-independent per-iteration amount, iterating the comment vector itself without adaptors) and compares it with the affine form of sauce_header_len reconstructed from SauceData::extract: both must be 129 and 134 + 64 n, and the count byte must be comments.len(); (R-SAUCE-CUT) the content length handed to the loaders in Buffer::from_bytes is only ever bytes.len() or len - sauce_header_len and all loaders get &bytes[..len]; (R-SAUCE-EXACT) every narrow shift/add/mul of the header decoder is value preserving by interval analysis. The value round trip of the metadata strings (padding semantics) is not decided.",
+    design_ref="§4 C11", note=STRUCT_NOTE + " SauceString::append_to is taken to append exactly N bytes.",
+    technique="static analysis: affine path-sum reconstruction over the writer's CFG + affine normal form of the reader's expression + who-writes rule on a local + interval analysis"),
+})
 NOT_APPLICABLE = {p: PENDING for p in ["C%02d" % i for i in range(1, 21)]}
 NOT_APPLICABLE.update({
  "C05": "value-level: equality of pictures after save->load depends on run-time cell values along data-dependent paths of two separate programs (writer, reader); no structural clause is a genuine necessary condition that is not also a frozen-layout match (DESIGN §5)",
